@@ -13,7 +13,8 @@ from .. import uscan
 
 STORAGE_CATS = {'storage-label': 'C18.R2', 'storage-compare': 'C18.R3', 'compare-units': 'C18.R3',
                 'config-compare': 'C18.R4', 'prefix-strip': 'C18.R1', 'from-storage': 'C18.R2', 'to-storage': 'C18.R2',
-                'store-volume': 'C18.R2', 'store-contents': 'C18.R2', 'std-format': 'C18.R2'}
+                'store-volume': 'C18.R2', 'store-contents': 'C18.R2', 'std-format': 'C18.R2',
+                'round-stored-at-user-precision': 'C18.R3'}
 OBSERVERS = ('Container.get_volume', 'Container.get_concentration')
 
 
@@ -48,6 +49,10 @@ def run(ctx):
                                       'compare-units'))
         nfun += 1
     floor(ctx, 'functions scanned for storage discipline', nfun, 8)
+    # ---- R3 accept/refuse at a capacity is decided on rounded values: the representation error of an unrounded sum
+    # differs between storage units (0.1 + 0.2 > 0.3 in mL, 100 + 200 == 300 in uL)
+    from .c03 import rounded_capacity_compare
+    rounded_capacity_compare(ctx, 'C18.R3', orientation=False)
     # ---- R3 observers return values free of the storage symbols
     for q in OBSERVERS:
         sc = targets.scan(ctx, q)
